@@ -177,4 +177,101 @@ theorem undo_logged {g0 g : G} {log : List (Nat × Nat)} (hs : SameStatic g0 g) 
   intro x
   rw [undoPairs_conns g log h x, hl x]
 
+/-! ## induction principles for the copy loops -/
+
+/-- the graph after `connect1 a b` made a new connection -/
+def linked (g : G) (a b : Nat) : G :=
+  { g with conns := updF (updF g.conns a (b :: g.conns a)) b (a :: g.conns b) }
+
+theorem copyTargets_ind (P : G → List (Nat × Nat) → Prop) (onlyNew : Bool) (my : Option Nat) (hard : Bool)
+    (ts : List Nat)
+    (hskip : ∀ g log m t, my = some m → t ∈ ts → t ∈ g.conns m → P g log →
+      P g (if onlyNew then log else log ++ [(m, t)]))
+    (hnew : ∀ g log m t, my = some m → t ∈ ts → t ∉ g.conns m → (g.kind m).conj (g.kind t) = true →
+      connect1 g m t = (linked g m t, .ok) → P g log → P (linked g m t) (log ++ [(m, t)])) :
+    ∀ (us : List Nat), (∀ t ∈ us, t ∈ ts) → ∀ g log, P g log →
+      P (copyTargets onlyNew g my hard us log).1 (copyTargets onlyNew g my hard us log).2.1 := by
+  intro us
+  induction us with
+  | nil => intro _ g log h; exact h
+  | cons t us ih =>
+    intro hsub g log h
+    have ht : t ∈ ts := hsub t (List.mem_cons_self ..)
+    have hsub' : ∀ u ∈ us, u ∈ ts := fun u hu => hsub u (List.mem_cons_of_mem _ hu)
+    unfold copyTargets
+    cases my with
+    | none =>
+      dsimp only
+      split
+      · exact h
+      · exact ih hsub' g log h
+    | some m =>
+      dsimp only
+      rcases connect1_cases g m t with ⟨hin, he⟩ | ⟨hnin, hc, he⟩ | ⟨hg, hne⟩
+      · rw [he]
+        dsimp only
+        have := hskip g log m t rfl ht hin h
+        simp only [hin, decide_true, Bool.and_true]
+        cases onlyNew <;> simp_all
+      · rw [he]
+        dsimp only
+        have := hnew g log m t rfl ht hnin hc he h
+        simp only [hnin, decide_false, Bool.and_false, Bool.false_eq_true, if_false]
+        exact ih hsub' _ _ this
+      · generalize hr : connect1 g m t = r at hg hne
+        obtain ⟨g', res⟩ := r
+        simp only at hg hne
+        subst hg
+        cases res with
+        | ok => exact absurd rfl hne
+        | typeErr =>
+          dsimp only
+          split
+          · exact h
+          · exact ih hsub' _ _ h
+        | connErr =>
+          dsimp only
+          split
+          · exact h
+          · exact ih hsub' _ _ h
+
+theorem copyPairs_ind (P : G → List (Nat × Nat) → Prop) (onlyNew hard : Bool)
+    (ps : List (Option Nat × Nat))
+    (hstep : ∀ g log my oc, (my, oc) ∈ ps → P g log →
+      P (copyTargets onlyNew g my hard (g.conns oc) log).1 (copyTargets onlyNew g my hard (g.conns oc) log).2.1) :
+    ∀ (qs : List (Option Nat × Nat)), (∀ q ∈ qs, q ∈ ps) → ∀ g log, P g log →
+      P (copyPairs onlyNew g hard qs log).1 (copyPairs onlyNew g hard qs log).2.1 := by
+  intro qs
+  induction qs with
+  | nil => intro _ g log h; exact h
+  | cons q qs ih =>
+    intro hsub g log h
+    obtain ⟨my, oc⟩ := q
+    have hq : (my, oc) ∈ ps := hsub _ (List.mem_cons_self ..)
+    have hsub' : ∀ u ∈ qs, u ∈ ps := fun u hu => hsub u (List.mem_cons_of_mem _ hu)
+    unfold copyPairs
+    have h1 := hstep g log my oc hq h
+    generalize copyTargets onlyNew g my hard (g.conns oc) log = r at h1
+    obtain ⟨g', log', fl⟩ := r
+    cases fl with
+    | true => exact h1
+    | false => exact ih hsub' g' log' h1
+
+/-- with the repaired log the undo of a failed copy is exact -/
+theorem copyPairs_logged (g0 : G) (hard : Bool) (ps : List (Option Nat × Nat)) (h0 : Inv g0) :
+    let r := copyPairs true g0 hard ps []
+    Inv r.1 ∧ SameStatic g0 r.1 ∧ Logged g0 r.1 r.2.1 := by
+  have := copyPairs_ind (fun g log => Inv g ∧ SameStatic g0 g ∧ Logged g0 g log) true hard ps
+    (fun g log my oc _ hP =>
+      copyTargets_ind (fun g log => Inv g ∧ SameStatic g0 g ∧ Logged g0 g log) true my hard (g.conns oc)
+        (fun g log m t _ _ _ hP => by simpa using hP)
+        (fun g log m t _ _ hnin hc he hP => by
+          have hi := connect1_inv g m t hP.1
+          have hst := connect1_static g m t
+          rw [he] at hi hst
+          exact ⟨hi, hP.2.1.trans hst, hP.2.2.step hP.1 hnin hc⟩)
+        (g.conns oc) (fun _ h => h) g log hP)
+    ps (fun _ h => h) g0 [] ⟨h0, .refl g0, .refl g0⟩
+  exact this
+
 end PwVerif.Edit
